@@ -4,7 +4,7 @@ NOT_APPLICABLE = [
  {"property_id": "C04", "reason": "Gaussian-tail / infinite-series inequality over reals: no discrete or exact-rational core a TLA+ state machine can decide (DESIGN 6)"},
  {"property_id": "C08", "reason": "probability over Gaussian noise realisations (closed form only via the normal CDF); the deterministic second sentence is exercised under C06/C13 (DESIGN 6)"},
 ]
-PENDING = ["C01","C02","C03","C05","C06","C07","C12","C13","C14","C15","C16","C17","C18","C19","C20"]
+PENDING = ["C01","C05","C12","C13","C14","C15","C16","C17","C18","C19","C20"]
 for p in PENDING:
     NOT_APPLICABLE.append({"property_id": p, "reason": "check under construction in this round (planned in DESIGN 5); not yet claimed"})
 
@@ -17,3 +17,14 @@ add("C10", "TLC proves on the lattice that exact vertex-candidate LP feasibility
 add("C11", "TLC proves that the procedure the code runs (vertex test + segment/hyper-plane crossings on W-images) is sound w.r.t. the forall-exists definition for every cone and complete for two-facet cones, on every ordered pair of lattice boxes; every row is replayed into check_dominates (soundness all cones, completeness K=2 with one-unit margin, equality with the procedure on robust exact rows).",
     "Bounds as C09; completeness only claimed for K=m=2 as the property states.",
     "TLC exhaustive table (procedure sound/complete vs definition) + table replay into code", "DESIGN 5 C11")
+
+_tr = ("Trusted: TLC, the TLA+ value parser, the projection functions of harness/algotrace.py; relations of float regions come from the reference "
+       "evaluator (bound to TLC tables in C09-C11) with tolerance 1e-6 x scale, non-robust pairs resolved existentially. Abstract model: N=3 designs (4 in thorough).")
+add("C02", "TLC explores the abstract run model (all dom/cov/pdom and Auer relations over 3 designs, every reachable S,P,U) and every step of recorded executions of the real classes - GP runs and lattice replays with scripted posteriors (identical, touching, nested regions; acute/obtuse/3-facet cones) - is validated by the trace specification: the designs that left S without entering P are exactly the certificate set computed from the displayed regions.",
+    _tr, "TLC abstract run model + trace validation of real and scripted-posterior runs (clause disc)", "DESIGN 5 C02")
+add("C03", "Same machinery, clauses newp/useful: designs enter P exactly when no active displayed region can eps-cover them, U is exactly the members of P that can still cover a candidate, Auer's two-stage rule with each design's own width (scripted per-design widths and heteroscedastic noise).",
+    _tr, "TLC abstract run model + trace validation of real and scripted-posterior runs (clauses newp, useful)", "DESIGN 5 C03")
+add("C06", "TLC checks the run invariants (disjointness, U in P, monotone S/P, never-back, completion iff guard, idle steps fixed, accounting) on the abstract model of all algorithms incl. budgets and batches; the driver matrix (nine algorithms x orders incl. K != m x confidence types x batch > active set x budgets x fixed rounds) is executed for real and every step, incl. steps after completion, is validated; an exception is an event no action matches.",
+    _tr + " VOGP_AD is driven by the C18 check.", "TLC abstract run model + trace validation over a configuration matrix (crash/accounting/monotonicity clauses)", "DESIGN 5 C06")
+add("C07", "The remove-chosen-row arg-max loop is specified as IsTopQ; every evaluation of every driven run is validated: requested designs are active, form an arg-max sequence of the acquisition values recomputed through public calls on the pre-sampling state (ties share a rank), are distinct, and exactly the returned observations (ids by exact float identity) with their designs/objective indices are what the model gained, and the wrapped GP is conditioned on them.",
+    _tr + " GP variance near-ties within 1e-5 relative share a rank; Thompson acquisition (DecoupledGP) argmax is not judged.", "TLC IsTopQ operator + trace validation of every evaluation (clauses sactive, sargmax, sdistinct, data)", "DESIGN 5 C07")
